@@ -97,13 +97,40 @@ def m_interp(x, xp, fp):
 
 
 def m_einsum(spec, *ops):
+    """general einsum over object arrays (explicit index loops; exact for any subscripts string with '->')"""
     spec = spec.replace(' ', '')
-    if spec == 'ij,ij->i':
-        a, b = ops
-        return SArr((np.asarray(a, dtype=object) * np.asarray(b, dtype=object)).sum(axis=1))
-    if spec == 'ij,j->i':
-        return m_dot(ops[0], ops[1])
-    raise Unsupported(f'einsum {spec}')
+    if '->' not in spec:
+        raise Unsupported(f'einsum without explicit output: {spec}')
+    ins, out = spec.split('->')
+    ins = ins.split(',')
+    if len(ins) != len(ops):
+        raise ValueError('einsum: operand count does not match the subscripts')
+    arrs = [np.asarray(o, dtype=object) for o in ops]
+    dims = {}
+    for sub, a in zip(ins, arrs):
+        if len(sub) != a.ndim:
+            raise ValueError(f'einsum: operand has {a.ndim} dimensions, subscripts {sub!r}')
+        for ch, n in zip(sub, a.shape):
+            # numpy.einsum broadcasts dimensions of length 1
+            if ch not in dims or dims[ch] == 1:
+                dims[ch] = n
+            elif n != 1 and dims[ch] != n:
+                raise ValueError(f'einsum: size of label {ch} does not match')
+    summed = [c for c in dims if c not in out]
+    res = np.empty(tuple(dims[c] for c in out), dtype=object)
+    import itertools
+    for oix in itertools.product(*[range(dims[c]) for c in out]):
+        env = dict(zip(out, oix))
+        acc = symx.val(0)
+        for six in itertools.product(*[range(dims[c]) for c in summed]):
+            env.update(zip(summed, six))
+            term = None
+            for sub, a in zip(ins, arrs):
+                cell = a[tuple(env[c] if a.shape[k] > 1 else 0 for k, c in enumerate(sub))]
+                term = cell if term is None else term * cell
+            acc = acc + term
+        res[oix] = acc
+    return SArr(res) if res.ndim else res.item()
 
 
 def m_dot(a, b):
@@ -352,6 +379,8 @@ def validate(seed=0):
         n_checked += 1
     W, Cm = rng.uniform(-1, 1, size=(3, 4)), rng.uniform(-1, 1, size=(3, 4))
     assert close(_conc(m_einsum('ij,ij->i', lift_arr(W), lift_arr(Cm))), np.einsum('ij,ij->i', W, Cm))
+    assert close(_conc(m_einsum('ij,ij->i', lift_arr(W), lift_arr(Cm[:1]))), np.einsum('ij,ij->i', W, Cm[:1]))
+    assert close(_conc(m_einsum('ij,ji->i', lift_arr(W[:, :3]), lift_arr(Cm[:, :3]))), np.einsum('ij,ji->i', W[:, :3], Cm[:, :3]))
     v = rng.uniform(-1, 1, size=4)
     assert close(_conc(m_dot(lift_arr(W), lift_arr(v))), np.dot(W, v))
     assert close(_conc(m_dot(W, lift_arr(v))), np.dot(W, v))
